@@ -12,7 +12,7 @@ NEED = ("h4x", "tools")
 RULE = ("three families against the sanitizer-built tool binaries. hdiff: a generated file F (C02 generator, NaN-free "
         "data) must compare equal to itself and to a byte copy (exit 0); for a generated single-point mutation F' "
         "(one element of one dataset / vdata record / image pixel changed through the API, one attribute value "
-        "changed, one dataset added) hdiff F F' and hdiff F' F must both report differences (exit 1). hdp: the "
+        "changed, one dataset added; one file in five holds 20..50 datasets so that the tools' object tables grow) hdiff F F' and hdiff F' F must both report differences (exit 1). hdp: the "
         "numbers printed by dumpsds -d / dumpvd -d / dumpgr -d for every dataset, vdata and image of F are parsed and "
         "must equal, in order, the values the library API returns (harness-written description). hdfimport: "
         "generated TEXT / FP32 / FP64 / IN32 / IN16 / IN08 inputs of rank 2 and 3 with scales and max/min, with "
@@ -54,9 +54,15 @@ def tool(d, name, args, timeout=120):
 @st.composite
 def hdiff_case(draw):
     base = draw(c02.strategy_("quick"))
+    if draw(st.integers(0, 4)) == 0:
+        # many objects: the tools' object tables (20 entries at first) have to grow
+        for i in range(draw(st.integers(18, 45))):
+            base["objs"].append({"kind": "sds", "name": "m%d" % i, "nt": draw(st.sampled_from(["int16", "uint8", "float32"])),
+                                 "dims": [2], "layout": "contig", "sess": 0, "attr": False, "dimname": False,
+                                 "dimscale": False, "dimattr": False, "parts": [[0, 2, 0]]})
     muts = draw(st.lists(st.tuples(st.sampled_from(["sds_value", "sds_value", "vd_value", "gr_value", "sds_attr",
                                                      "add_sds", "vd_attr", "sd_gattr", "sd_gattr"]),
-                                   st.integers(0, 5), st.integers(0, 400)), min_size=1, max_size=3))
+                                   st.integers(0, 60), st.integers(0, 400)), min_size=1, max_size=3))
     return {"family": "hdiff", "file": base, "mutations": [list(m) for m in muts]}
 
 
